@@ -34,8 +34,10 @@ def St.init : St := { dir := none, holds := [], releasing := [], dead := [], for
 
 def step (s : St) : Ev → Option St
   | .mkOk i =>
-    if s.dir = none ∧ i ∉ s.holds ∧ i ∉ s.releasing ∧ i ∉ s.dead then
-      some { s with dir := some i, holds := i :: s.holds }
+    -- (a contender may create the directory while the model still counts it as a holder: its previous
+    --  directory was removed by somebody else, or a timed-out LockWithTimeout acquired in the background)
+    if s.dir = none ∧ i ∉ s.releasing ∧ i ∉ s.dead then
+      some { s with dir := some i, holds := if i ∈ s.holds then s.holds else i :: s.holds }
     else none
   | .mkFail _ => if s.dir ≠ none then some s else none
   | .unlockBegin i =>
